@@ -13,7 +13,6 @@ import vlib
 
 TRACERS = ["Na", "K", "Cl", "Br", "Li"]
 TOL = Fr(1, 10 ** 9)
-FLOOR = Fr(1, 10 ** 20)        # amounts below this are outside the relative comparison (MIN_TOTAL = 1e-25 cut-off region)
 
 
 # ----------------------------------------------------------------------------- python mirror of coq/C11/Transport.v
@@ -278,16 +277,6 @@ def parse_rows(res):
 def reported_nmix(res):
     m = re.search(r"Calculating transport: (\d+) \(mobile\) cells, (\d+) shifts, (\d+) mixruns", res.get("warn", ""))
     return int(m.group(3)) if m else None
-
-
-def close(obs, exp, scale=None):
-    """the property's comparison: relative 1e-9 (amounts under FLOOR are below the engine's cut-off region)"""
-    obs, exp = Fr(obs), Fr(exp)
-    if scale is not None:
-        return abs(obs - exp) <= TOL * scale
-    if abs(exp) < FLOOR:
-        return abs(obs) <= 2 * FLOOR
-    return abs(obs - exp) <= TOL * abs(exp)
 
 
 def near_integer(x, eps=Fr(1, 10 ** 9)):
@@ -777,12 +766,16 @@ def run(ctx):
     import collections
     if ctx.replay:
         return run_replay(ctx)
+    import time
+    tm = {}
+    t0 = time.time()
     proofs_ok = vlib.coq_stage(ctx, "Props/Properties_C11.vo", gen=gen)
+    tm["coq_stage"] = round(time.time() - t0, 1)
     rng = ctx.rng
     stats = collections.Counter()
     # if the proof stage broke, aim more cases at the model tie (section 5 of DESIGN.md)
     boost = 1 if proofs_ok else 3
-    nA, nB, nC = ctx.n(24, 150) * boost, ctx.n(8, 40), ctx.n(50, 400) * boost
+    nA, nB, nC = ctx.n(20, 150) * boost, ctx.n(6, 40), ctx.n(50, 400) * boost
     nR, nI, nV = ctx.n(24, 150), ctx.n(12, 60), ctx.n(24, 120)
     jobs = []          # (check names, case)
     for i in range(nA):
@@ -806,8 +799,12 @@ def run(ctx):
         if case["kind"] == "tracer":
             case["elcols"] = ["m" + t for t in TRACERS]
     texts = [case_text(c) for (_, c, _) in jobs]
+    tm["generate"] = round(time.time() - t0 - tm["coq_stage"], 1)
+    t1 = time.time()
     res = vlib.run_inputs([{"id": i, "db": "phreeqc.dat", "text": t, "flags": []} for i, t in enumerate(texts)],
                           timeout_each=120, workers=6)
+    tm["engine"] = round(time.time() - t1, 1)
+    t1 = time.time()
     coq_terms = {}
     for i, (checks, case, pool) in enumerate(jobs):
         r0 = res.get(i, {"timeout": True})
@@ -835,7 +832,11 @@ def run(ctx):
                 colsel = ["mNa", "mCl", "cb"] if pool == "A" else ["mNa", "cb"]
                 items = [x for x in collect if x[0] in colsel and x[1] in shifts]
                 coq_terms[i] = coq_case_term(case, reported_nmix(r0), items)
+    tm["compare(python mirror, property checks)"] = round(time.time() - t1, 1)
+    t1 = time.time()
     out, logs = coq_run_cases(coq_terms, shards=6, timeout=ctx.n(600, 3000))
+    tm["coq_checker"] = round(time.time() - t1, 1)
+    ctx.extra["timing_s"] = tm
     for i, v in out.items():
         stats["coq-checker/%s" % v] += 1
         if v is not True:
@@ -854,9 +855,11 @@ def run(ctx):
                 "one shift moved something (status ok); model comparison per cell and shift: |obs-exp| <= 1e-9*|exp| + propagated engine slack")
     ctx.trusted += ["python mirror of the Coq model (props/c11.py: mixf/mix_step/one_shift) - cross-checked inside Coq against the model on pools A and B",
                     "tolerance policy (1e-9 relative + the engine's own mass-balance acceptance sqrt(total*1e-25) per speciation) computed in python",
-                    "translator/c11_initmix.py (clang JSON AST of Phreeqc::init_mix -> Gallina leaf expressions and guard shapes)"]
+                    "translator/c11_initmix.py (clang JSON AST of Phreeqc::init_mix -> Gallina leaf expressions and guard shapes; of Phreeqc::multi_D -> the strncmp name tests)",
+                    "multi_D: the species fluxes (find_J) are arbitrary data in the bookkeeping theorems; only the explicit branch of fill_m_s / step 3 / the negative-total repair is modelled"]
     ctx.notes += ["floating-point rounding of the engine is not modelled; cases whose 1.5*maxmix is within 1e-9 of an integer are skipped (counted as nmix-rounding-ambiguous)",
-                  "multicomponent / implicit diffusion and stagnant zones are covered by inventory checks only (no model)",
+                  "multicomponent diffusion: bookkeeping model + inventory checks; implicit diffusion and stagnant zones: inventory checks only",
+                  "implicit diffusion keeps every tracked element at >= 1e-13 mol per cell (min_mol): the implicit inventory check allows 2e-13 mol x cells absolutely",
                   "MCD runs in which the engine itself reports 'Negative concentration in MCD: added ...' are counted, not flagged"]
 
 
